@@ -55,10 +55,76 @@ def wal_models(ctx, family, pinned):
         ctx.model_check("Wal.tla", "cfg/wal_pinned_%s.cfg" % d, expect_violation="*", timeout=900)
 
 
+def export_behaviours(ctx, module, cfg, label):
+    """Runs the behaviour-export spec and returns the parsed behaviours."""
+    import behaviours as B
+    out = ctx.path("beh-%s.out" % label)
+    r = ctx.tlc(module, cfg, workers=1, timeout=1800, heap="6g", stdout_file=out)
+    if r["error"] or "Model checking completed" not in r["out"]:
+        raise Inconclusive("behaviour export failed: %s %s\n%s" % (module, cfg, r["out"][-2000:]))
+    behs = B.parse(out)
+    os.remove(out)
+    ctx.cov["model_checks"].append(dict(module=module, cfg=cfg, generated=r["generated"], distinct=r["distinct"], behaviours_exported=len(behs)))
+    ctx.cov["states"] += r["distinct"]
+    ctx.cov["transitions"] += r["generated"]
+    return behs
+
+
+def wal_replay(ctx, gencfg, label, mode, n, big=False, extra=None, want=None):
+    """spec -> code: behaviours of the Wal model, replayed on the real code with fault images."""
+    import behaviours as B
+    behs = export_behaviours(ctx, "GenWal.tla", "cfg/%s.cfg" % gencfg, label)
+    if want:
+        behs = [b for b in behs if want(b)]
+    sm = B.sample(behs, n, ctx.seed)
+    nsh = CORES
+    files = [ctx.path("prog-%s-%d.ndjson" % (label, i)) for i in range(nsh)]
+    fh = [open(f, "w") for f in files]
+    for i, b in enumerate(sm):
+        if big:
+            b = [dict(e, v=("v2big" if e.get("v") == "v2" else e.get("v"))) if e["op"] == "put" else e for e in b]
+        fh[i % nsh].write(json.dumps(B.wal_program(b, "beh-%s-%d" % (label, i), mode == "power")) + "\n")
+    for f in fh:
+        f.close()
+    jobs, outs = [], []
+    for i, f in enumerate(files):
+        out = ctx.path("rec-beh-%s-%d.ndjson" % (label, i))
+        outs.append(out)
+        jobs.append(["fault", "-mode", mode, "-in", f, "-seed", str(ctx.seed * 31 + i), "-out", out] + (extra or []))
+    add_stats(ctx, ctx.vrun_parallel(jobs), "behaviours-" + label)
+    ctx.cov["samples"].append({"model_behaviour": sm[0], "program": B.wal_program(sm[0], "sample", mode == "power")})
+    return ctx.validate(outs)
+
+
+def lh_replay(ctx, n, mult=16):
+    """spec -> code: behaviours of the LHIndex model on the real 31-slot buckets through `fat keys'."""
+    import behaviours as B
+    behs = export_behaviours(ctx, "GenLH.tla", "cfg/gen_lh.cfg", "lh")
+    sm = B.sample(behs, n, ctx.seed, minlen=4)
+    fk = B.FatKeys(0x9e3779b9)
+    nsh = 8
+    files = [ctx.path("prog-lh-%d.ndjson" % i) for i in range(nsh)]
+    fh = [open(f, "w") for f in files]
+    for i, b in enumerate(sm):
+        m = (16, 24, 31)[i % 3] if mult is None else mult
+        fh[i % nsh].write(json.dumps(B.lh_program(b, "beh-lh-%d" % i, m, fk.keys)) + "\n")
+    for f in fh:
+        f.close()
+    jobs, outs = [], []
+    for i, f in enumerate(files):
+        out = ctx.path("rec-beh-lh-%d.ndjson" % i)
+        outs.append(out)
+        jobs.append(["fault", "-mode", "seq", "-probe", "-in", f, "-seed", str(ctx.seed * 31 + i), "-out", out])
+    add_stats(ctx, ctx.vrun_parallel(jobs), "behaviours-lh")
+    ctx.cov["samples"].append({"model_behaviour": sm[0]})
+    return ctx.validate(outs)
+
+
 def c03(ctx):
     q = ctx.quick()
     wal_models(ctx, "crash", ["D11"])
     rejs = regress(ctx) + fault_family(ctx, "crash", "crash", CORES, 12 if q else 120, 25, ["-twice"] if not q else [])
+    rejs += wal_replay(ctx, "gen_wal_crash", "crash", "crash", 200 if q else 4000, big=True)
     ctx.report_rejections(rejs, describe_generic)
     h = ctx.cov["harness"]["crash"]
     ctx.cov["evaluations"] = h.get("images", 0)
@@ -80,6 +146,8 @@ def c04(ctx):
     if not q:
         ctx.model_check("Wal.tla", "cfg/wal_crash3_t.cfg", timeout=3000)
     rejs = regress(ctx) + fault_family(ctx, "crash-epochs", "crash", CORES, 10 if q else 100, 25, ["-epochs", "-twice", "-depth", "1"])
+    rejs += wal_replay(ctx, "gen_wal_crash5", "crash5", "crash", 200 if q else 4000, extra=["-twice", "-depth", "1"],
+                       want=lambda b: sum(1 for e in b if e["op"] in ("crash", "tornput")) >= 1)
     ctx.report_rejections(rejs, describe_generic)
     h = ctx.cov["harness"]["crash-epochs"]
     ctx.cov["evaluations"] = h.get("images", 0)
@@ -96,10 +164,13 @@ def c06(ctx):
     n = 4 if q else 40
     rejs = regress(ctx) + fault_family(ctx, "power", "power", CORES // 2, n, 18, ["-noreopen", "-epochs", "-plimit", "32" if q else "96"])
     rejs += fault_family(ctx, "power-syncw", "power", CORES // 2, n, 18, ["-noreopen", "-epochs", "-syncw", "-plimit", "32" if q else "96"])
+    rejs += fault_family(ctx, "power-compact", "power", CORES // 2, n, 30, ["-noreopen", "-compactheavy", "-plimit", "12" if q else "48"], keys=12)
+    rejs += fault_family(ctx, "power-compact-syncw", "power", CORES // 2, n, 30, ["-noreopen", "-compactheavy", "-syncw", "-plimit", "12" if q else "48"], keys=12)
+    rejs += wal_replay(ctx, "gen_wal_power", "power", "power", 120 if q else 2500, extra=["-plimit", "32"], want=lambda b: any(e["op"] == "sync" for e in b))
     ctx.report_rejections(rejs, describe_generic)
-    ha, hb = ctx.cov["harness"]["power"], ctx.cov["harness"]["power-syncw"]
-    ctx.cov["evaluations"] = ha.get("images", 0) + hb.get("images", 0)
-    ctx.cov["distinct_nontrivial"] = ha.get("distinct_images", 0) + hb.get("distinct_images", 0)
+    hs = [v for k, v in ctx.cov["harness"].items() if k.startswith("power") or k.startswith("behaviours")]
+    ctx.cov["evaluations"] = sum(h.get("images", 0) for h in hs)
+    ctx.cov["distinct_nontrivial"] = sum(h.get("distinct_images", 0) for h in hs)
     ctx.assumptions += [POWER_MODEL] + FAULT_ASSUME
     return ctx.finish("model_checking", "random programs (puts/deletes/sync/compact, rollover; both sync modes; runs continue inside power-loss images = 'an earlier recovery') on crashfs; "
                       "at every mutating call the admissible power-loss images (exhaustive product of per-file surviving prefixes when small, else extremes + single-file sweeps + seeded sample) are reopened by the real code; "
@@ -112,10 +183,12 @@ def c09(ctx):
     n = 6 if q else 50
     rejs = regress(ctx) + fault_family(ctx, "closed-power", "power", CORES // 2, n, 16, ["-onlyclosed", "-plimit", "64" if q else "256"])
     rejs += fault_family(ctx, "closed-power-syncw", "power", CORES // 2, n, 16, ["-onlyclosed", "-syncw", "-plimit", "64" if q else "256"])
+    rejs += fault_family(ctx, "closed-power-sessions", "power", CORES // 2, n, 40, ["-onlyclosed", "-sessions", "-compactheavy", "-plimit", "64" if q else "256"], keys=12)
+    rejs += wal_replay(ctx, "gen_wal_power", "closed", "power", 120 if q else 2500, extra=["-onlyclosed", "-plimit", "64"], want=lambda b: any(e["op"] == "close" for e in b))
     ctx.report_rejections(rejs, describe_generic)
-    ha, hb = ctx.cov["harness"]["closed-power"], ctx.cov["harness"]["closed-power-syncw"]
-    ctx.cov["evaluations"] = ha.get("images", 0) + hb.get("images", 0)
-    ctx.cov["distinct_nontrivial"] = ha.get("distinct_images", 0) + hb.get("distinct_images", 0)
+    hs = [v for k, v in ctx.cov["harness"].items() if k.startswith("closed") or k.startswith("behaviours")]
+    ctx.cov["evaluations"] = sum(h.get("images", 0) for h in hs)
+    ctx.cov["distinct_nontrivial"] = sum(h.get("distinct_images", 0) for h in hs)
     ctx.assumptions += [POWER_MODEL] + FAULT_ASSUME
     return ctx.finish("model_checking", "random programs with clean restarts; power-loss images taken from the return of every Close until the end of the following Open (every mutating call of that Open), all files relevant (no lock file => index and metas are trusted); "
                       "validated by TLC against Layer A (LossOK with the floor at ret(Close) = everything, i.e. exactly the closed contents)")
@@ -147,7 +220,7 @@ def c01(ctx):
     lh_models(ctx)
     outs = seq_jobs(ctx, "seq-small", 4, 6 if q else 40, 60, 10, ("crashfs", "mem", "os", "osmmap"))
     outs += seq_jobs(ctx, "seq-chains", 12, 3 if q else 20, 260 if q else 500, 72, ("crashfs", "crashfs", "osmmap", "mem", "os", "crashfs"))
-    rejs = regress(ctx) + ctx.validate(outs)
+    rejs = regress(ctx) + ctx.validate(outs) + lh_replay(ctx, 60 if q else 1500, mult=None)
     ctx.sample_from(outs[0], 1)
     ctx.report_rejections(rejs, describe_generic)
     h = ctx.cov["harness"]
@@ -163,6 +236,7 @@ def c05(ctx):
     q = ctx.quick()
     wal_models(ctx, "crash", ["D8"])
     rejs = regress(ctx) + fault_family(ctx, "compact-inject-crash", "crash", CORES, 10 if q else 80, 40, ["-inject", "-keys", "6"])
+    rejs += wal_replay(ctx, "gen_wal_crash5", "compact", "crash", 250 if q else 5000, want=lambda b: any(e["op"] == "pick" for e in b))
     ctx.report_rejections(rejs, describe_generic)
     h = ctx.cov["harness"]["compact-inject-crash"]
     ctx.cov["evaluations"] = h.get("images", 0)
@@ -179,8 +253,8 @@ ALLFS = ("crashfs", "mem", "os", "osmmap")
 def c02(ctx):
     q = ctx.quick()
     wal_models(ctx, "crash", ["D11"])
-    outs = seq_jobs(ctx, "restart-alt", 8, 3 if q else 24, 220, 64, ("os", "osmmap"), ["-alt"])
-    outs += seq_jobs(ctx, "restart", 8, 3 if q else 24, 220, 64, ALLFS, ["-alt"])
+    outs = seq_jobs(ctx, "restart-alt", 8, 5 if q else 40, 300, 64, ("os", "osmmap"), ["-alt", "-sessions"])
+    outs += seq_jobs(ctx, "restart", 8, 5 if q else 40, 300, 64, ALLFS, ["-alt", "-sessions"])
     rejs = regress(ctx) + ctx.validate(outs)
     ctx.sample_from(outs[0], 1)
     ctx.report_rejections(rejs, describe_generic)
@@ -253,6 +327,7 @@ def c07(ctx):
     q = ctx.quick()
     outs = stress_jobs(ctx, "stress", 12, 20 if q else 300, 14, 4, ALLFS, ["-maint"], workers=3)
     outs += stress_jobs(ctx, "stress-bg", 4, 10 if q else 150, 14, 3, ("osmmap", "os", "mem", "crashfs"), ["-maint", "-bg"], workers=3)
+    outs += stress_jobs(ctx, "stress-grow", 12, 3 if q else 40, 120, 800, ALLFS, ["-maint", "-grow"], workers=3)
     jobs, o2 = fault_jobs(ctx, "seq", 4, 6 if q else 60, 50, 5, ["-inject"])
     add_stats(ctx, ctx.vrun_parallel(jobs), "compact-inject")
     rejs = ctx.validate(outs + o2, dfs=True)
@@ -260,7 +335,7 @@ def c07(ctx):
     ctx.report_rejections(rejs, describe_generic)
     h = ctx.cov["harness"]
     ctx.cov["evaluations"] = ctx.cov["events"]
-    ctx.cov["distinct_nontrivial"] = h["stress"].get("histories", 0) + h["stress-bg"].get("histories", 0) + h["compact-inject"].get("programs", 0)
+    ctx.cov["distinct_nontrivial"] = h["stress"].get("histories", 0) + h["stress-bg"].get("histories", 0) + h["stress-grow"].get("histories", 0) + h["compact-inject"].get("programs", 0)
     ctx.assumptions += ["invocation events are logged before the call starts and response events after it returned, under one mutex: the order of the lines respects real time, so any linearization point lies between them",
                         "no hook marks linearization points: TLC searches them (silent Lin steps), a differently structured correct implementation cannot be rejected"]
     return ctx.finish("model_checking", "free-running histories: 2-5 goroutines x 14 Put/Delete/Get/GetAppend/Has/Count calls on 3-4 hot keys with per-producer values, plus a goroutine running Compact, Sync, Backup, whole Items scans, Count, FileSize, Metrics, "
@@ -290,6 +365,7 @@ def c10(ctx):
     q = ctx.quick()
     outs = stress_jobs(ctx, "race-stress", 12, 8 if q else 120, 14, 4, ("mem", "os", "osmmap"), ["-maint", "-closemid", "-bg"], race=True, workers=3)
     outs += stress_jobs(ctx, "close-race", 4, 20 if q else 200, 10, 3, ALLFS, ["-maint", "-closemid"], workers=3)
+    outs += stress_jobs(ctx, "race-grow", 4, 2 if q else 30, 120, 800, ("osmmap", "mem", "os", "osmmap"), ["-maint", "-grow"], race=True, workers=3)
     races = race_reports(ctx)
     extra = ctx.path("rec-race-events.ndjson")
     with open(extra, "w") as f:
@@ -319,7 +395,7 @@ def c10(ctx):
     ctx.report_rejections(rejs, describe)
     h = ctx.cov["harness"]
     ctx.cov["evaluations"] = ctx.cov["events"]
-    ctx.cov["distinct_nontrivial"] = h["race-stress"].get("histories", 0) + h["close-race"].get("histories", 0)
+    ctx.cov["distinct_nontrivial"] = h["race-stress"].get("histories", 0) + h["close-race"].get("histories", 0) + h["race-grow"].get("histories", 0)
     ctx.assumptions += ["data races and memory faults are not expressible in TLA+: they are observed by the Go race detector / SetPanicOnFault on these schedules and enter the recording as events no Layer-A action accepts; completeness is that of the schedules run"]
     return ctx.finish("model_checking", "free-running histories built with -race: workers + maintenance goroutine (Compact, Sync, Backup, scans, FileSize, Metrics) + background workers, Close fired at a random point of half of the histories; "
                       "panics -> fault events, 20 s without progress -> stuck event with goroutine dump, goroutines inside pogreb after Close returned -> leak event, race-detector reports -> race events; "
